@@ -4,10 +4,27 @@ C19 — driver: replays an implementation trace through the model (correspondenc
 cfg:  n=<instances> keys=<distinct keys>      instance i uses key "k{i % keys}", model id "id{i}"
 ops:  ft <ms> | acquire <i> | release <i> | setexpire <i> <seconds> | ids
       race <i> <j> …      concurrent Acquire calls of distinct instances (real goroutines)
+      scriptflush         Redis drops its script cache (next script run: EVALSHA→NOSCRIPT, then EVAL)
       down | up           miniredis answers every command with an error / normally again
+      inj <p> <acquire i|release i> [ <op> ; <op> … ]
+                          the bracketed operations were executed immediately before the p-th Redis command of
+                          the call (after the call if it sent fewer): other instances' operations and clock
+                          advances BETWEEN the round trips of one call (go-redis hook in the harness)
+      lost <acquire i|release i>   the reply of the executed command was dropped: the caller saw an error
 obs:  <true|false|ok|err>  then the store as seen directly in miniredis, one token per key:
       k<j>=-  (absent)   or   k<j>=<owner>:<pttl ms>   (owner printed as id<i> of the instance whose id it is)
       race … => won=<i,j,…|-> <store>       ids => distinct len=<n>  |  dup
+      inj … => <res> cmds=<sent commands, `!` = answered with an error> at=<p|after> inner=<res,…> <store>
+      lost … => err cmds=<…> <store>
+
+An `inj` line is checked twice.  Correspondence: the model runs the same schedule in the command-level
+semantics (`runInj real`, Cmds.lean): the code that exists sends ONE executing command per call (EVALSHA, or
+EVAL after a NOSCRIPT answer — which of the two is an observed environment input), so the operations
+placed before it precede the call's single atomic step and everything else follows it.  Monitor
+(model-independent): the implementation's results and final store must be explained by the lease table of
+the specification with the call taking effect atomically at SOME point among the operations that ran
+during it (linearizability); if no placement explains them, the disagreement at the call's last command is
+reported in the property's words (e.g. "Release … reported true but k0 is held by id1").
 
 A race is explained as *some* order of the atomic script runs: the observed winners first, then the
 others (if any order explains the outcome, this one does — theorems concurrent_acquires_*).
@@ -19,6 +36,7 @@ callers' beliefs (`Spec.Belief`, fed with the implementation's results only).
 -/
 import GoZero.Base.Trace
 import GoZero.C19.Spec
+import GoZero.C19.Cmds
 namespace GoZero.C19
 
 open GoZero
@@ -29,19 +47,48 @@ inductive DOp where
   | ids
   | down
   | up
+  | scriptflush
+  | inj (p : Nat) (outer : Op) (inner : List Op)
+  | lost (outer : Op)
   deriving Repr
 
 def parseInst (n : Nat) (s : String) : Option Nat := do
   let i ← s.toNat?
   if i < n then pure i else none
 
+def parseSimple (n : Nat) : List String → Option Op
+  | ["ft", ms] => do pure (.ft (← ms.toNat?))
+  | ["acquire", i] => do pure (.acquire (← parseInst n i))
+  | ["release", i] => do pure (.release (← parseInst n i))
+  | ["setexpire", i, s] => do pure (.setExpire (← parseInst n i) (← s.toInt?))
+  | _ => none
+
+def parseCall (n : Nat) : List String → Option Op
+  | ["acquire", i] => do pure (.acquire (← parseInst n i))
+  | ["release", i] => do pure (.release (← parseInst n i))
+  | _ => none
+
+/-- split a token list at `;` -/
+def splitSemi (toks : List String) : List (List String) :=
+  let r := toks.foldl (fun (acc : List (List String) × List String) t =>
+    if t = ";" then (acc.1 ++ [acc.2], []) else (acc.1, acc.2 ++ [t])) ([], [])
+  r.1 ++ [r.2]
+
 def parseOp (n : Nat) : List String → Option DOp
+  | "inj" :: p :: call :: i :: "[" :: rest => do
+    let p ← p.toNat?
+    let outer ← parseCall n [call, i]
+    if p = 0 ∨ rest.getLast? ≠ some "]" then none
+    let inner ← (splitSemi rest.dropLast).mapM (parseSimple n)
+    pure (.inj p outer inner)
+  | ["lost", call, i] => do pure (.lost (← parseCall n [call, i]))
   | ["ft", ms] => do pure (.op (.ft (← ms.toNat?)))
   | ["acquire", i] => do pure (.op (.acquire (← parseInst n i)))
   | ["release", i] => do pure (.op (.release (← parseInst n i)))
   | ["setexpire", i, s] => do pure (.op (.setExpire (← parseInst n i) (← s.toInt?)))
   | ["ids"] => some .ids
   | ["down"] => some .down
+  | ["scriptflush"] => some .scriptflush
   | ["up"] => some .up
   | "race" :: js => do
     let js ← js.mapM (parseInst n)
@@ -205,6 +252,263 @@ def checkOps (c : Ctx) (r : Report) (d : DSt) (ops : List (Op × Option Bool)) (
     | none => pure ()
   return (r, { d with st := st, sp := sp, bel := bel, won := won })
 
+/-! ### `inj` and `lost` lines -/
+
+/-- a printed result: `some (some b)`, `some none` = failed with an error, `none` = unparsable -/
+def resOfTok : String → Option (Option Bool)
+  | "true" => some (some true)
+  | "false" => some (some false)
+  | "ok" => some (some true)
+  | "err" => some none
+  | _ => none
+
+def tokOfRes (op : Op) : Option Bool → String
+  | none => "err"
+  | some b => resTok op b
+
+def afterPrefix (pre tok : String) : Option String :=
+  if tok.startsWith pre then some ((tok.drop pre.length).toString) else none
+
+def listTok (s : String) : List String := if s = "-" ∨ s = "" then [] else s.splitOn ","
+
+def isCallOp : Op → Bool
+  | .acquire _ => true
+  | .release _ => true
+  | .acquireS _ _ => true
+  | _ => false
+
+/-- the lease table replayed over operations with the implementation's results (`none` = the call failed
+with an error: it must not have had an effect); the first disagreement, in the property's words -/
+def specSeq (cfg : Nat → LockCfg) : Spec.ASt → List (Op × Option Bool) → Option String × Spec.ASt
+  | a, [] => (none, a)
+  | a, (_, none) :: rest => specSeq cfg a rest
+  | a, (op, some b) :: rest =>
+    match Spec.explain cfg a op b with
+    | some msg => (some msg, a)
+    | none => specSeq cfg (Spec.step cfg a op).1 rest
+
+/-- does the lease table explain these results and the store seen afterwards? `none` = yes -/
+def specExplains (cfg : Nat → LockCfg) (keys : List String) (a : Spec.ASt) (ops : List (Op × Option Bool))
+    (dump : String) : Option String :=
+  match specSeq cfg a ops with
+  | (some msg, _) => some msg
+  | (none, a') =>
+    if specDump a' keys = dump then none
+    else some s!"the lock afterwards is not what the lease table says: spec=[{specDump a' keys}] impl=[{dump}]"
+
+/-- the call under observation as it appears in a history: an Acquire with the `seconds` it loaded -/
+def placeOuter (outer : Op) (s : Nat) : Op :=
+  match outer with
+  | .acquire i => .acquireS i s
+  | o => o
+
+/-- `seconds` values an Acquire taking effect after `before` may legitimately have loaded: the value at the
+start of the call or any value a SetExpire on the same instance stored since -/
+def secsCands (a : Spec.ASt) (outer : Op) (before : List Op) : List Nat :=
+  match outer with
+  | .acquire i =>
+    (a.secs i :: before.filterMap fun o =>
+      match o with
+      | .setExpire j v => if j = i then some (toUint32 v) else none
+      | _ => none).eraseDups
+  | _ => [0]
+
+def placed (outer : Op) (ob : Option Bool) (inner : List (Op × Option Bool)) (pos s : Nat) :
+    List (Op × Option Bool) :=
+  inner.take pos ++ [(placeOuter outer s, ob)] ++ inner.drop pos
+
+/-- all atomic placements of the call among the operations that ran during it -/
+def placements (a : Spec.ASt) (outer : Op) (inner : List Op) : List (Nat × Nat) :=
+  (List.range (inner.length + 1)).flatMap fun pos => (secsCands a outer (inner.take pos)).map fun s => (pos, s)
+
+/-- **linearizability monitor**: some placement explains results and store -/
+def linearize (cfg : Nat → LockCfg) (keys : List String) (a : Spec.ASt) (outer : Op) (ob : Option Bool)
+    (inner : List (Op × Option Bool)) (dump : String) : Option (Nat × Nat) :=
+  (placements a outer (inner.map (·.1))).find? fun ps =>
+    (specExplains cfg keys a (placed outer ob inner ps.1 ps.2) dump).isNone
+
+/-- replays a placed sequence for the beliefs monitor and the spec state.  The observed call's belief is
+counted from the START of the call (`now0`): the caller cannot know when inside the call the script ran. -/
+def beliefSeq (c : Ctx) (r : Report) (sp : Spec.ASt) (bel : Spec.Belief) (won : List Nat) (outerPos : Nat)
+    (seq : List (Op × Option Bool)) (flagged : Bool) : Report × Spec.ASt × Spec.Belief × List Nat := Id.run do
+  let mut r := r
+  let mut sp := sp
+  let mut bel := bel
+  let mut won := won
+  let mut flagged := flagged
+  let now0 := sp.now
+  let mut idx := 0
+  for (op, ob) in seq do
+    match ob with
+    | none =>
+      -- failed call: whatever the caller believed about this lock it can no longer rely on
+      match op with
+      | .acquire i | .acquireS i _ | .release i => bel := Spec.updB bel i none
+      | _ => pure ()
+    | some b =>
+      bel := bel.step (if idx = outerPos then now0 else sp.now) sp.secs op b
+      let who : Option Nat := match op with
+        | .acquire i => some i
+        | .acquireS i _ => some i
+        | _ => none
+      match who with
+      | some i =>
+        if b then
+          match otherBeliever c bel sp.now i with
+          | some j =>
+            if !flagged then
+              r := r.violation c.sec c.line s!"two holders: instance {i} was granted {(c.cfg i).key} while instance {j} still holds an unexpired lease it was granted earlier op=[{c.opTxt}] impl=[{c.impl}]"
+              flagged := true
+          | none => pure ()
+          if !won.contains i then won := i :: won
+      | none => pure ()
+      sp := (Spec.step c.cfg sp op).1
+    idx := idx + 1
+  return (r, sp, bel, won)
+
+def cmdsText (cached : Bool) : String := if cached then "evalsha" else "evalsha!,eval"
+
+/-- an `inj` line -/
+def checkInj (c : Ctx) (r : Report) (d : DSt) (p : Nat) (outer : Op) (inner : List Op) (obs : List String) :
+    Report × DSt := Id.run do
+  let mut r := r
+  let bad := (r.mismatch c.sec c.line "<res> cmds=… at=… inner=… <store>" c.impl, d)
+  match obs with
+  | resT :: cmdsT :: atT :: innerT :: dump =>
+    let some cmdsS := afterPrefix "cmds=" cmdsT | return bad
+    let some atS := afterPrefix "at=" atT | return bad
+    let some innerS := afterPrefix "inner=" innerT | return bad
+    let some ob := resOfTok resT | return bad
+    let some innerRes := (listTok innerS).mapM resOfTok | return bad
+    if innerRes.length ≠ inner.length then return bad
+    let cmds := listTok cmdsS
+    let innerObs := inner.zip innerRes
+    let dumpS := joinSp dump
+    let pd := parseDump dump
+    r := r.addCover (match outer with
+      | .acquire _ => "inj-acquire"
+      | _ => "inj-release")
+    r := r.addCover s!"inj-at-{atS}"
+    for br in branchOf c.cfg d.st d.won outer do r := r.addCover s!"inj-{br}"
+    for o in inner do
+      r := r.addCover (match o with
+        | .ft _ => "inj-inner-ft"
+        | .acquire _ => "inj-inner-acquire"
+        | .release _ => "inj-inner-release"
+        | .setExpire _ _ => "inj-inner-setexpire"
+        | _ => "inj-inner-other")
+    -- ---------------- correspondence: the command-level model on the same schedule
+    let mut st := d.st
+    if d.down then
+      -- every round trip fails: no call has an effect; clock and SetExpire still act
+      let mAt := if p = 1 then "1" else "after"
+      let mInner := inner.map fun o => if isCallOp o then "err" else "ok"
+      for o in inner do
+        if !isCallOp o then st := (step c.cfg st o).1
+      let model := joinSp [s!"err cmds=evalsha! at={mAt} inner={",".intercalate mInner}", modelDump st c.keys]
+      r := r.addCover "inj-while-down"
+      if model ≠ c.impl then
+        r := r.mismatch c.sec c.line model c.impl
+        match pd with
+        | some pd => st := { st with store := resyncStore st.store.now pd }
+        | none => pure ()
+    else
+      -- observed environment: was the script in Redis' cache (EVALSHA answered) or not (NOSCRIPT, then EVAL)
+      let cached := cmds.head? ≠ some "evalsha!"
+      let m := runInj real c.cfg st outer cached p inner
+      let mAt := match m.fired with
+        | some q => toString q
+        | none => "after"
+      let mInner := ",".intercalate ((inner.zip m.inner).map fun (o, b) => resTok o b)
+      let model := joinSp [s!"{resTok outer m.outer} cmds={cmdsText cached} at={mAt} inner={mInner}", modelDump m.st c.keys]
+      st := m.st
+      if !cached then r := r.addCover "inj-script-not-cached(evalsha!+eval)"
+      if m.fired = some 2 ∧ !cached then r := r.addCover "inj-between-noscript-and-eval"
+      if model ≠ c.impl then
+        r := r.mismatch c.sec c.line model c.impl
+        if cmds.filter (fun x => !x.endsWith "!") ≠ [if cached then "evalsha" else "eval"] then
+          r := r.addCover "inj-call-is-not-one-script-run"
+        match pd with
+        | some pd => st := { st with store := resyncStore st.store.now pd }
+        | none => pure ()
+    -- ---------------- monitor: linearizability against the lease table
+    let mut sp := d.sp
+    let mut bel := d.bel
+    let mut won := d.won
+    match linearize c.cfg c.keys sp outer ob innerObs dumpS with
+    | some (pos, s) =>
+      r := r.addCover (if inner.length = 0 then "inj-explained" else if pos = 0 then "inj-explained-call-first"
+        else if pos = inner.length then "inj-explained-call-last" else "inj-explained-call-in-the-middle")
+      let (r', sp', bel', won') := beliefSeq c r sp bel won pos (placed outer ob innerObs pos s) false
+      r := r'; sp := sp'; bel := bel'; won := won'
+    | none =>
+      -- report the disagreement at the call's last executed command
+      let executed := (cmds.zipIdx.filter fun (x, _) => !x.endsWith "!").map fun (_, k) => k + 1
+      let last := executed.foldl max 0
+      let pos := match atS.toNat? with
+        | some q => if q ≤ last then inner.length else 0
+        | none => 0
+      let s := (secsCands sp outer []).headD 0
+      let seq := placed outer ob innerObs pos s
+      let why := (specExplains c.cfg c.keys sp seq dumpS).getD "results not explained"
+      r := r.violation c.sec c.line s!"{why} — no atomic placement of the call among the operations that ran during it explains the results (call sent [{cmdsS}], operations ran before its command {atS}) op=[{c.opTxt}] impl=[{c.impl}]"
+      r := r.addCover "inj-not-linearizable"
+      let (r', sp', bel', won') := beliefSeq c r sp bel won pos seq true
+      r := r'; bel := bel'; won := won'
+      sp := match pd with
+        | some pd => resyncSpec sp' pd
+        | none => sp'
+    return (r, { d with st := st, sp := sp, bel := bel, won := won })
+  | _ => return bad
+
+/-- a `lost` line: Redis executed the call's command but the caller got an error -/
+def checkLost (c : Ctx) (r : Report) (d : DSt) (outer : Op) (obs : List String) : Report × DSt := Id.run do
+  let mut r := r
+  let bad := (r.mismatch c.sec c.line "err cmds=… <store>" c.impl, d)
+  match obs with
+  | resT :: cmdsT :: dump =>
+    let some cmdsS := afterPrefix "cmds=" cmdsT | return bad
+    let cmds := listTok cmdsS
+    let dumpS := joinSp dump
+    let pd := parseDump dump
+    let who := match outer with
+      | .acquire i => i
+      | .release i => i
+      | _ => 0
+    r := r.addCover (match outer with
+      | .acquire _ => "lost-reply-acquire"
+      | _ => "lost-reply-release")
+    for br in branchOf c.cfg d.st d.won outer do r := r.addCover s!"lost-{br}"
+    let mut st := d.st
+    let cached := cmds.head? ≠ some "evalsha!"
+    -- the model: the script ran (unless Redis is down); the caller sees an error
+    let model :=
+      if d.down then joinSp ["err cmds=evalsha!", modelDump st c.keys]
+      else joinSp [s!"err cmds={cmdsText cached}", modelDump (step c.cfg st outer).1 c.keys]
+    if !d.down then st := (step c.cfg st outer).1
+    if model ≠ c.impl then
+      r := r.mismatch c.sec c.line model c.impl
+      match pd with
+      | some pd => st := { st with store := resyncStore st.store.now pd }
+      | none => pure ()
+    -- monitor: the lock is in the state of "executed" or of "not executed", nothing else
+    let mut sp := d.sp
+    let spYes := (Spec.step c.cfg sp outer).1
+    if resT ≠ "err" then r := r.addCover "lost-reply-not-lost"   -- reported by the correspondence above
+    if specDump spYes c.keys = dumpS then
+      r := r.addCover "lost-reply-call-took-effect"
+      sp := spYes
+    else if specDump sp c.keys = dumpS then
+      r := r.addCover "lost-reply-call-had-no-effect"
+    else
+      r := r.violation c.sec c.line s!"a call that failed with an error left the lock neither as before nor as after the call: before=[{specDump sp c.keys}] after=[{specDump spYes c.keys}] impl=[{dumpS}] op=[{c.opTxt}]"
+      sp := match pd with
+        | some pd => resyncSpec sp pd
+        | none => sp
+    -- the caller saw an error: it can rely on nothing about this lock
+    return (r, { d with st := st, sp := sp, bel := Spec.updB d.bel who none })
+  | _ => return bad
+
 def parseWon (n : Nat) (tok : String) : Option (List Nat) :=
   match tok.splitOn "=" with
   | ["won", "-"] => some []
@@ -246,6 +550,20 @@ def runSection (r : Report) (s : Section) : Report := Id.run do
       r := r.addCover "up"
       d := { d with down := false }
       if impl ≠ "ok" then r := r.mismatch s.idx l.idx "ok" impl
+    | some .scriptflush =>
+      -- no effect on the lock; whether the next script run needs two round trips is observed (`cmds=`)
+      r := { r with ops := r.ops + 1 }
+      r := r.addCover "scriptflush"
+      let want := if d.down then "err" else "ok"
+      if impl ≠ want then r := r.mismatch s.idx l.idx want impl
+    | some (.inj p outer inner) =>
+      r := { r with ops := r.ops + 1 + inner.length }
+      let (r', d') := checkInj c r d p outer inner l.obs
+      r := r'; d := d'
+    | some (.lost outer) =>
+      r := { r with ops := r.ops + 1 }
+      let (r', d') := checkLost c r d outer l.obs
+      r := r'; d := d'
     | some (.race js) =>
       r := { r with ops := r.ops + 1 }
       match l.obs with
